@@ -1,3 +1,5 @@
 import ModVerif.AuditCmd
 import ModVerif.Props.C01
+import ModVerif.Tie.FnClientTiles
 #audit_module ModVerif.Props.C01
+#audit_module ModVerif.Tie.FnClientTiles
